@@ -47,12 +47,22 @@ Definition merr_eqb (a b : merr) : bool :=
   | ECall h, ECall h' => N.eqb h h'
   | _, _ => false
   end.
+(* errors that the harness can only recognise by their text (no registered ledger, wrong asset type,
+   challenge duration): the property says that the call fails, not which message it carries, so an error
+   the harness could not classify (OUnknown) agrees with each of them; scripted call errors are
+   recognised structurally (errors.As) and stay exact *)
+Definition plain_refusal (o : outcome) : bool :=
+  match o with OErr (ENotFound _) | OErrAsset | OErrDuration => true | _ => false end.
+Definition unclassified (o : outcome) : bool :=
+  match o with OErr (ECall h) => N.eqb h 4294967295 | _ => false end.
 Definition outcome_eqb (a b : outcome) : bool :=
   match a, b with
   | OOk, OOk | OErrAsset, OErrAsset | OErrDuration, OErrDuration | OPanic, OPanic => true
   | OErr e, OErr e' => merr_eqb e e'
   | _, _ => false
-  end.
+  end
+  || (plain_refusal a && (unclassified b || plain_refusal b))
+  || (plain_refusal b && unclassified a).
 Definition outcome_class_eqb (a b : outcome) : bool :=
   match a, b with
   | OErr _, OErr _ => true
